@@ -58,7 +58,7 @@ Proof. exact laplace_l2_range. Qed.
 Print Assumptions C05_entries_in_unit_interval.
 
 (* ---------- positive semi-definiteness ---------- *)
-Require Import XV.Real.PsdProduct XV.Real.PsdCert.
+Require Import XV.Real.PsdProduct XV.Real.PsdMore XV.Real.PsdCert.
 (* (i) PROVED for all inputs: the product (L1-type) Laplace kernel with exponent 1 — exp(-||T(x-z)||_1 / L) — has a non-negative quadratic
    form for ANY number of points, any dimension, any coefficients and any feature transform (explicit finite-dimensional feature maps:
    a telescoping 1-D construction on the sorted coordinates, tensor products over the coordinates). *)
@@ -70,7 +70,32 @@ Print Assumptions C05_product_laplace_q1_is_psd.
 Theorem C05_laplace_1d_feature_map : forall pts a b, In a pts -> In b pts -> exp (- Rabs (a - b)) = vdotR (f1 pts a) (f1 pts b).
 Proof. exact laplace1_feature_dot. Qed.
 Print Assumptions C05_laplace_1d_feature_map.
-(* (ii) for the other exponents / norms (Schoenberg: 0 < q <= p <= 2) the general statement is NOT proved; instead every Gram matrix the
+(* the same for the op-sequence model the code is tied to, for the Lpq kernel with p = q = 1, for the sum-power kernel with exponent 1
+   (any mixing constant in [0,1], any integer power), and for the Gaussian case of the L2 kernel (exponent 2; limit of the Taylor partial sums
+   of exp(2<u,v>), each of which has a finite-dimensional feature map) *)
+Theorem C05_product_laplace_op_sequence_q1_is_psd : forall t L xs cs d, 0 < L -> wf_tmat t d -> Forall (fun x => length x = d) xs ->
+  0 <= qf (laplace_product t L 1) xs cs.
+Proof. exact laplace_product_psd. Qed.
+Theorem C05_lpq_p1_q1_is_psd : forall t L xs cs d, 0 < L -> wf_tmat t d -> Forall (fun x => length x = d) xs ->
+  0 <= qf (laplace_lpq t L 1 1) xs cs.
+Proof. exact laplace_lpq_p1_q1_psd. Qed.
+Theorem C05_sum_power_q1_is_psd : forall t L c power xs cs d, 0 < L -> 0 <= c <= 1 -> wf_tmat t d -> Forall (fun x => length x = d) xs ->
+  0 <= qf (sum_power t L 1 c power) xs cs.
+Proof. exact sum_power_op_q1_psd. Qed.
+Theorem C05_gaussian_l2_q2_is_psd : forall t L xs cs d, 0 < L -> wf_tmat t d -> Forall (fun x => length x = d) xs ->
+  0 <= qf (laplace_l2 t L 2) xs cs.
+Proof. exact laplace_l2_q2_psd. Qed.
+Print Assumptions C05_product_laplace_op_sequence_q1_is_psd.
+Print Assumptions C05_lpq_p1_q1_is_psd.
+Print Assumptions C05_sum_power_q1_is_psd.
+Print Assumptions C05_gaussian_l2_q2_is_psd.
+(* closure of feature-map representations under sums, non-negative scaling, products and powers (Schur product via tensor features) *)
+Theorem C05_representable_kernels_are_psd : forall k P, has_rep k P -> forall cs, 0 <= qf k P cs.
+Proof. exact has_rep_qf_nonneg. Qed.
+Theorem C05_schur_product : forall k1 k2 P, has_rep k1 P -> has_rep k2 P -> has_rep (fun u v => k1 u v * k2 u v) P.
+Proof. exact has_rep_mul. Qed.
+Print Assumptions C05_schur_product.
+(* (ii) for the remaining exponents / norms (Schoenberg: 0 < q <= p <= 2, e.g. the L2 kernel with exponent 1) the general statement is NOT proved; instead every Gram matrix the
    harness obtains from the code is certified inside Coq: an exact integer LDL^T certificate is re-checked by computation and this theorem
    turns an accepted certificate into a bound on the quadratic form for EVERY real vector. *)
 Theorem C05_psd_certificate_is_sound : forall dim K tol D c, length K = dim -> Forall (fun r => length r = dim) K ->
